@@ -146,7 +146,17 @@ func (in *interp) stmts(t *rapid.T, env map[string]any, list []*SX) any {
 			in.ev("u" + s.List[1].Atom)
 		case "cleanup":
 			body := s.List[1:]
-			t.Cleanup(func() { in.stmts(t, map[string]any{}, body) })
+			// a cleanup registered by a Custom generator function belongs to that attempt: what it signals is
+			// signalled "inside the Custom function" (the function itself has returned when it runs)
+			depth := in.customDepth
+			t.Cleanup(func() {
+				if depth > in.customDepth {
+					old := in.customDepth
+					in.customDepth = depth
+					defer func() { in.customDepth = old }()
+				}
+				in.stmts(t, map[string]any{}, body)
+			})
 		case "ctx":
 			in.ctxEvent(t)
 		case "ctxlive": // the context of the invocation must be live in the body
